@@ -52,8 +52,10 @@ VM_SPECS = vp.VM_SPECS[:m.start()] + vp.VM_SPECS[m.end():]
 # `derived_step` is IMPLIED by op_post (lemma_op_post_gives_step_post, proved in the epilogue for all
 # states); it is restated on the assumed handler contracts only so that the solver has it at every `?` exit
 n_op = VM_SPECS.count("ensures Self::op_post(old(self), final(self), r is Ok)")
-assert n_op > 30
+assert n_op > 20, n_op
 VM_SPECS = VM_SPECS.replace("ensures Self::op_post(old(self), final(self), r is Ok)", "ensures Self::op_post(old(self), final(self), r is Ok), Self::derived_step(old(self), final(self))")
+assert "ensures Self::call_post(old(self), final(self), r is Ok, info.frame_base)," in VM_SPECS
+VM_SPECS = VM_SPECS.replace("ensures Self::call_post(old(self), final(self), r is Ok, info.frame_base),", "ensures Self::call_post(old(self), final(self), r is Ok, info.frame_base), Self::derived_step(old(self), final(self)),   // (implied: lemma_call_post_gives_step_post)")
 VM_SPECS += r"""
     spec fn derived_step(o: &KotoVm, f: &KotoVm) -> bool { o.wf() && Self::barrier_index(o.call_stack@) >= 0 ==> Self::step_post(o, f, false) }
 """
@@ -188,6 +190,14 @@ proof fn lemma_op_post_gives_step_post(o: &KotoVm, f: &KotoVm, ok: bool)
     let n = o.call_stack@.len() as int;
     // the frames up to the barrier are the same (the top one up to its scratch fields), any new frame
     // is no barrier: the innermost barrier is where it was
+    lemma_barrier_index_stable(o.call_stack@, f.call_stack@);
+}
+proof fn lemma_call_post_gives_step_post(o: &KotoVm, f: &KotoVm, ok: bool, frame_base: u8)
+    requires o.wf(), KotoVm::barrier_index(o.call_stack@) >= 0, KotoVm::call_post(o, f, ok, frame_base),
+    ensures KotoVm::step_post(o, f, false),
+{
+    lemma_barrier_index(o.call_stack@);
+    lemma_barrier_index(f.call_stack@);
     lemma_barrier_index_stable(o.call_stack@, f.call_stack@);
 }
 proof fn lemma_barrier_index_stable(s: Seq<Frame>, t: Seq<Frame>)
